@@ -20,6 +20,7 @@
 Nothing here decides anything: it drives the real code and hands back what
 happened (messages in both directions, emitted frames, projections).
 """
+import os
 import select as _select
 import struct
 
@@ -205,6 +206,13 @@ class Net(object):
     sched = core.scheduler
     hub = sched._selectHub
     self.sched, self.hub = sched, hub
+    if getattr(hub, "_x05_pid", None) != os.getpid():
+      # a forked worker inherits the hub's wake-up pipe and would share it with its siblings (one process
+      # reading the byte another one wrote): give this process a pipe of its own
+      from pox.lib.util import make_pinger
+      old_pinger, hub._pinger = hub._pinger, make_pinger()
+      hub._x05_old_pinger = old_pinger          # keep the inherited descriptors open (the parent owns them)
+      hub._x05_pid = os.getpid()
     hub._select_func = self._vselect
     self._target = clock.now
     sched._ready.clear()
